@@ -88,9 +88,79 @@ def run(facts, rep, tier):
         "edition 2021",
     ]
     escape_sites(F, rep)
+    escaped_as_key(F, rep)
     kwtable(F, rep)
     spell(F, rep)
     registry(F, rep)
+
+
+VIEW_CALLS = ("Deref::deref", "::as_str", "::as_ref", "::borrow", "Clone::clone", "ToString::to_string",
+              "ToOwned::to_owned", "::into", "From<", "::as_string", "::into_owned", "Cow<")
+KEY_METHODS = ("get", "get_mut", "contains_key", "remove", "insert", "entry", "contains", "get_key_value")
+
+
+def is_key_sink(g):
+    last = g.split("::")[-1].split("<")[0]
+    if any(c in g for c in ("HashMap::<", "HashSet::<", "BTreeMap::<", "BTreeSet::<")) and last in KEY_METHODS:
+        return True
+    if "PartialEq" in g and last in ("eq", "ne"):
+        return True
+    return ("str" in g or "String" in g) and last in ("starts_with", "ends_with", "eq_ignore_ascii_case")
+
+
+def escaped_as_key(F, rep):
+    """ESCKEY — the escaped spelling (`r#final`) exists only for the Rust text: the result of escape_keyword may flow
+    into identifier construction, never into a map / set lookup or a name comparison. The emitter's metadata
+    (struct_field_names, struct_field_defaults, enum tables ...) is keyed by the Incan name, so a lookup with the
+    escaped spelling silently misses for exactly the names that need escaping."""
+    from engines import derived_locals
+    n = 0
+    for p in sorted(F.fns):
+        if not p.startswith("incan::backend"):
+            continue
+        f = F.fns[p]
+        roots = [t["d"]["l"] for bi, t in f.calls()
+                 if (callee_name(t) or "").endswith("::escape_keyword") and not t["d"]["p"]]
+        if not roots:
+            continue
+        tainted = set()
+        for r in roots:
+            tainted |= derived_locals(f, r)
+        changed = True
+        while changed:
+            changed = False
+            for bi, t in f.calls():
+                if t["d"]["p"] or t["d"]["l"] in tainted:
+                    continue
+                g = callee_generic(t) or callee_name(t) or ""
+                if not any(v in g for v in VIEW_CALLS):
+                    continue
+                if any(op_place(o) is not None and op_place(o)["l"] in tainted for o in t["args"]):
+                    tainted |= derived_locals(f, t["d"]["l"])
+                    changed = True
+        per = 0
+        for bi, t in f.calls():
+            g = callee_generic(t) or callee_name(t) or ""
+            if not is_key_sink(g):
+                continue
+            hit = [i for i, o in enumerate(t["args"]) if op_place(o) is not None and op_place(o)["l"] in tainted]
+            # argument 0 of a map method is the map itself
+            hit = [i for i in hit if not (i == 0 and ("HashMap" in g or "HashSet" in g or "BTree" in g))]
+            if not hit:
+                continue
+            per += 1
+            inst = "%s|%s#%d" % (fn_short(p), g.split("::")[-1], per)
+            rep.oblige("ESCKEY", inst, False)
+            rep.add(Finding("ESCKEY", "ESCKEY|%s" % inst,
+                            "in %s the result of escape_keyword reaches `%s`: metadata is keyed by the Incan name, so "
+                            "for a type/field named with a Rust keyword (`final`, `struct`, ...) the lookup uses "
+                            "`r#final` and misses — the emitter then silently takes its fallback path"
+                            % (fn_short(p), g.split("::")[-1]), file=f.file, line=t.get("ln"), fn=p))
+        n += len(roots)
+        if not per:
+            rep.oblige("ESCKEY", fn_short(p), True, sample={"rule": "ESCKEY", "fn": p, "escape_keyword_calls": len(roots),
+                                                           "reaches_lookup_or_comparison": False})
+    rep.floor("ESCKEY", "escape_keyword call sites in the backend", n, 10)
 
 
 def escape_sites(F, rep):
